@@ -116,6 +116,8 @@ type evaluator struct {
 	fields map[string]poly
 	env    map[types.Object]poly
 	lenK   types.Object // slice of kept positions: len(it) is the symbol k
+	body   ast.Node     // function body: single-assignment locals not yet in env are resolved lazily
+	busy   map[types.Object]bool
 	opaque int
 }
 
@@ -150,8 +152,24 @@ func (ev *evaluator) eval(e ast.Expr) (poly, bool) {
 	}
 	switch x := e.(type) {
 	case *ast.Ident:
-		p, ok := ev.env[objOf(ev.info, x)]
-		return p, ok
+		o := objOf(ev.info, x)
+		if p, ok := ev.env[o]; ok {
+			return p, true
+		}
+		// a local assigned exactly once (anywhere, e.g. hoisted size/offset
+		// expressions) stands for its definition, evaluated in the current environment
+		if ev.body != nil && o != nil && !ev.busy[o] {
+			if d := singleDef(ev.info, ev.body, o); d != nil {
+				if ev.busy == nil {
+					ev.busy = map[types.Object]bool{}
+				}
+				ev.busy[o] = true
+				p, ok := ev.eval(d)
+				delete(ev.busy, o)
+				return p, ok
+			}
+		}
+		return nil, false
 	case *ast.SelectorExpr:
 		if objOf(ev.info, x.X) == ev.cmd && ev.cmd != nil {
 			p, ok := ev.fields[x.Sel.Name]
@@ -489,14 +507,6 @@ func (it *interp) recover(filterKey *types.Func) string {
 		return "no top-level loop testing keys with FilterKey (here or in a helper called with args)"
 	}
 	it.preamble = append([]ast.Stmt{}, body.List[:at]...)
-	// single-assignment locals introduced after the key loop (e.g. a
-	// `lead := cmd.firstkey - 1` used by the copy-out phase) are part of
-	// the straight-line integer environment as well
-	for _, later := range body.List[at+1:] {
-		if as, ok := later.(*ast.AssignStmt); ok && as.Tok == token.DEFINE && len(as.Lhs) == 1 && len(as.Rhs) == 1 {
-			it.preamble = append(it.preamble, as)
-		}
-	}
 	var hok bool
 	it.loopVar, it.eF, it.eL, it.cmpOp, it.eS, hok = forHeader(info, it.keyLoop)
 	if !hok {
@@ -689,9 +699,12 @@ func (it *interp) newEval(f, l, s *int64) *evaluator {
 		pre = append(pre, st)
 	}
 	ev.exec(pre)
-	if o := objOf(it.info, it.num); o != nil && it.appended {
+	// from here on we are behind the key loop: the counter holds the number of
+	// kept keys, and later single-assignment locals are resolved when used
+	if o := objOf(it.info, it.num); o != nil {
 		ev.env[o] = sym("k")
 	}
+	ev.body = it.fn.Decl.Body
 	for _, b := range it.binds { // the key loop runs in a helper: its parameters are the caller's arguments
 		if p, ok := ev.eval(b.arg); ok {
 			ev.env[b.param] = p
